@@ -202,6 +202,10 @@ let handle_rename cfg style text vars rest : (string * string) list =
     (match single_op bd, single_op ad with
      | Some bo, Some ao ->
        let (mo', mmp) = map_variables bo in
+       (* slices.SortFunc is not stable: definitions that ended up with ONE name (the collision
+          defect) may come in either order; compare those modulo the order of equal names *)
+       let norm (o : operation) = if mapper_no_collision_b o then o else { o with op_vars = List.sort compare o.op_vars } in
+       let mo' = norm mo' and ao = norm ao in
        let sort_mp l = List.sort compare (List.map (fun (a, b) -> (string_of_bytes a, string_of_bytes b)) l) in
        if not (mo' = ao && sort_mp mmp = sort_mp mapping) then
          add "mismatch" (Printf.sprintf "corr:C09/rename %s impl_vars=%s model_vars=%s impl_mapping=%s model_mapping=%s same_op=%b" ctx
